@@ -25,6 +25,7 @@ func init() {
 			{ID: "C07.R7", Floor: 2, Doc: "sticky failure: each socket write is guarded by the writer's recorded-failure state, which is set on a write error", Run: c07r7},
 			{ID: "C07.R8", Floor: 1, Doc: "net.Buffers.WriteTo consumes its receiver: it runs on a private copy, the per-request accounting reads the untouched original", Run: c07r8},
 			{ID: "C07.R9", Floor: 1, Doc: "frames handed to the writer are complete: the header length equals the bytes that follow it (=C18.R7)", Run: finishLength},
+			{ID: "C07.R12", Floor: 3, Doc: "a waiting writer is always answered by a send: the channels that carry write results are never closed (the zero result means '0 bytes, no error')", Run: c07ResultChanNotClosed},
 			{ID: "C07.R10", Floor: 1, Doc: "exec hands the request's own context to the writer, so a request cancelled while it waits for the write slot never writes", Run: c07r10},
 			{ID: "C07.R11", Floor: 1, Doc: "the writers run their socket write synchronously: no goroutine started inside the write path reaches a socket write", Run: c07r11},
 		},
